@@ -9,6 +9,7 @@ structure applied to the library's own psi / rho numbers (1e-12)."""
 import numpy as np
 import torch
 
+import common
 import rot_lib as L
 from rot_tlc import gmul, gconj, tup
 
@@ -43,6 +44,12 @@ class Tables:
     def fac(self):
         return {k: v["fac"] for k, v in self.dict.items()}
 
+    def terms_of(self, letters, k):
+        try:
+            return self.terms[(tuple(letters), k)]["terms"]
+        except KeyError:
+            raise common.MachineryError("no exported expansion for %s / outcome %d" % ("".join(letters), k))
+
 
 def library_dict(tb, letters, form_no):
     """a dictionary for the string: None (the state's own default) when only X, Y, Z occur and the
@@ -68,8 +75,9 @@ class Replayer:
         n = len(letters)
         ud = library_dict(self.tb, letters, c)
         skind = "density" if kind == "rho" else ("positive" if c % 3 == 0 else "complex")
-        if skind == "positive" and ud is None:
-            ud = un.create_dict()                      # PositiveWaveFunction carries no dictionary
+        if skind == "positive" and ud is None and c % 2:
+            ud = un.create_dict()                      # PositiveWaveFunction carries no dictionary: passed explicitly,
+                                                       # or (every other case) left to the default-dictionary fallback
         if ud is not None and skind != "positive" and c % 4 == 1:
             state, arg = L.state_for(skind, n, unitary_dict=ud), None      # dictionary through the constructor
         else:
@@ -122,7 +130,7 @@ class Replayer:
         self.chk.evaluations += 1
         ok = max(e1, e2) <= L.INT_TOL and gt == exp
         for b, k in enumerate(idxs):
-            spec = self.tb.terms[(letters, k)]["terms"]
+            spec = self.tb.terms_of(letters, k)
             want = {tuple(tm["v"]): gmul(tuple(tm["u"]), tuple(x[tm["idx"]])) for tm in spec}
             have = {tuple(int(round(z)) for z in vv[ti, b]): tuple(gterms[ti][b]) for ti in range(len(gterms))}
             if want != have or len(gterms) != len(spec):
@@ -167,7 +175,7 @@ class Replayer:
         ok = max(e1, e2) <= L.INT_TOL
         transposed = ok
         for b, k in enumerate(idxs):
-            spec = self.tb.terms[(letters, k)]["terms"]
+            spec = self.tb.terms_of(letters, k)
             vrow = [tuple(int(round(z)) for z in vv[ti, b]) for ti in range(vv.shape[0])]
             if sorted(vrow) != sorted(tuple(tm["v"]) for tm in spec) or len(gterms) != len(spec):
                 ok = transposed = False
@@ -209,7 +217,7 @@ class Replayer:
         self.count += 1
         c = self.count
         ud = library_dict(tb, letters, c)
-        if skind == "positive" and ud is None:
+        if skind == "positive" and ud is None and c % 4 < 2:
             ud = un.create_dict()
         if ud is not None and skind != "positive" and c % 2:
             state, arg = L._make(skind, n, ud), None
@@ -239,7 +247,7 @@ class Replayer:
             tt, vv = L.cplx.numpy(terms), v.detach().cpu().numpy()
             ok = True
             for b, k in enumerate(idxs):
-                spec = tb.terms[(letters, k)]["terms"]
+                spec = tb.terms_of(letters, k)
                 want = {tuple(tm["v"]): complex(*tm["u"]) / L.sqrt2pow(dd["nfac"]) * psi[tm["idx"]] for tm in spec}
                 have = {tuple(int(round(z)) for z in vv[ti, b]): tt[ti, b] for ti in range(tt.shape[0])}
                 ok = ok and set(want) == set(have) and all(abs(want[q] - have[q]) <= tol for q in want)
@@ -266,7 +274,7 @@ class Replayer:
             tt, vv = L.cplx.numpy(terms), v.detach().cpu().numpy()
             ok = True
             for b, k in enumerate(idxs):
-                spec = tb.terms[(letters, k)]["terms"]
+                spec = tb.terms_of(letters, k)
                 vrow = [tuple(int(round(z)) for z in vv[ti, b]) for ti in range(vv.shape[0])]
                 if sorted(vrow) != sorted(tuple(tm["v"]) for tm in spec):
                     ok = False
